@@ -71,6 +71,19 @@ func c12Mutate(stream []byte, payload []byte, mut string, k int) ([]byte, bool) 
 			return s, false
 		}
 		return append(s[:at:at], s[at+2:]...), true
+	case "cut-after-data", "cut-after-data-crlf":
+		// the body ends exactly after the first chunk's data (or after the CRLF that follows it): a
+		// transport hands those last bytes to the reader together with the end of the body
+		sizes := 0
+		fmt.Sscanf(string(s), "%x;", &sizes)
+		at := first + 2 + sizes
+		if mut == "cut-after-data-crlf" {
+			at += 2
+		}
+		if sizes == 0 || at > len(s) {
+			return s, false
+		}
+		return s[:at], true
 	case "chunk-longer-than-data":
 		// announce a first chunk that is longer than everything that follows
 		rest := s[bytes.IndexByte(s, ';'):]
@@ -88,7 +101,7 @@ func c12Mutate(stream []byte, payload []byte, mut string, k int) ([]byte, bool) 
 	return s, false
 }
 
-var c12Muts = []string{"truncate", "bad-hex", "no-signature", "short-signature", "missing-crlf-after-header", "missing-crlf-after-data", "chunk-longer-than-data", "trailing-garbage", "no-final-chunk", "flip"}
+var c12Muts = []string{"cut-after-data", "cut-after-data-crlf", "truncate", "bad-hex", "no-signature", "short-signature", "missing-crlf-after-header", "missing-crlf-after-data", "chunk-longer-than-data", "trailing-garbage", "no-final-chunk", "flip"}
 
 func c12Check(cs c12Case) (ds []disc) {
 	st := backends.Must(cs.Backend, backends.Options{StreamBuf: cs.StreamBuf})
@@ -334,7 +347,7 @@ func c12Run(t *testing.T, c *evid.Collector) {
 					continue
 				}
 				for _, fr := range []s3x.Frag{{Mode: "whole"}, {Mode: "n", N: 4096}} {
-					for _, m := range []string{"", "truncate", "no-final-chunk", "missing-crlf-after-data"} {
+					for _, m := range []string{"", "truncate", "no-final-chunk", "missing-crlf-after-data", "cut-after-data", "cut-after-data-crlf"} {
 						i++
 						if i%evid.Shards() != evid.Shard() {
 							continue
